@@ -183,13 +183,34 @@ def signal_sets(nvars, tier):
                 for vy in itertools.product(F.V2, repeat=len(ty)):
                     sets.append({'x': tuple(zip(tx, vx)), 'y': tuple(zip(ty, vy))})
             out += sets[37::128] if quick else sets[5::16]
+    if quick:
+        out = out[:2] + out[3:]     # four of the five time-set combinations (the one that starts at t0 = 1 is kept)
     return out
 
 
 def shards(tier):
     fs = formula_set(tier)
-    per = 2 if tier == 'quick' else 1
-    return [{'formulas': [(F.to_json(f), p) for f, p in fs[i:i + per]]} for i in range(0, len(fs), per)]
+    per = 1
+    out = [{'formulas': [(F.to_json(f), p) for f, p in fs[i:i + per]]} for i in range(0, len(fs), per)]
+    deep = [f for f in F.deep_formulas(PAST_U, ('since',), future=False) if not F.has_op(f, ('prev', 'rise'))]
+    deep = deep[::4] if tier == 'quick' else deep
+    out += [{'formulas': [(F.to_json(f), False)], 'deep': True} for f in deep]
+    return out
+
+
+def deep_signal_sets(nvars, tier):
+    """7 samples on [0,6] (one variable: all 64 cuts x their alignments are explored by the schedule BFS)"""
+    tx = (0.0, 1.0, 2.0, 3.5, 4.0, 5.0, 6.0)
+    ty = (0.0, 2.0, 4.5, 6.0)
+    vals = ((2.0, -1.0, -1.0, 2.0, -1.0, -1.0, 2.0), (-1.0, 2.0, 2.0, -1.0, -1.0, 2.0, -1.0), (-1.0, -1.0, 2.0, -1.0, 2.0, 2.0, 2.0))
+    if tier != 'quick':
+        vals = tuple(itertools.product(F.V2, repeat=7))[::9]
+    if nvars == 1:
+        return [{'x': tuple(zip(tx, v))} for v in vals]
+    # two variables: 5 + 3 samples keep the schedule space (all alignments of all cuts) within a few thousand transitions
+    tx2 = (0.0, 1.0, 3.5, 5.0, 6.0)
+    ty2 = (0.0, 2.0, 6.0)
+    return [{'x': tuple(zip(tx2, v[:5])), 'y': tuple(zip(ty2, (2.0, -1.0, 2.0)))} for v in vals[:2 if tier == 'quick' else 6]]
 
 
 def run_shard(shard, tier, res):
@@ -199,7 +220,7 @@ def run_shard(shard, tier, res):
         vs = sorted(F.fvars(f))
         text = 'out = ' + F.pr(f)
         res.formulas += 1
-        for sig in signal_sets(len(vs), tier):
+        for sig in (deep_signal_sets(len(vs), tier) if shard.get('deep') else signal_sets(len(vs), tier)):
             sig = {v: sig['x' if (v == 'y' and len(vs) == 1) else v] for v in vs}
             m = ScheduleModel(f, text, vs, sig, pastify)
 
